@@ -220,10 +220,6 @@ func genCase(f *Fam, r *Rng) Case {
 		// accept invalid parameters; what the methods then return is not part of the model's claim)
 		fn, x = "Ctor", 0
 	}
-	if (f.Name == "FGamma" || f.Name == "FChiSquared") && fn != "LogPdf" && x < 0 {
-		// GammaP at a negative argument is C13's business; the missing guard is a known finding (hunt)
-		x = -x
-	}
 	if f.Gp != nil && valid {
 		for _, ab := range f.Gp(p, x, fn) {
 			if v := special.GammaP(ab[0], ab[1]); math.IsNaN(v) || math.IsInf(v, 0) {
